@@ -26,11 +26,11 @@ TYPES = {
 # instantiations of generic parameters used by drivers
 GENERICS = {
     "none": dict(decl="", inst="", tparam=None),
-    "ty": dict(decl="<T: Default + Clone + PartialEq + core::fmt::Debug>", inst="<u16>", tparam="u16"),
-    "tywhere": dict(decl="<T>", where=" where T: Default + Clone + PartialEq + core::fmt::Debug", inst="<u16>", tparam="u16"),
+    "ty": dict(decl="<T: Default + Clone + PartialEq + ::core::fmt::Debug>", inst="<u16>", tparam="u16"),
+    "tywhere": dict(decl="<T>", where=" where T: Default + Clone + PartialEq + ::core::fmt::Debug", inst="<u16>", tparam="u16"),
     "lt": dict(decl="<'a>", inst="<'static>", tparam=None),
     "const": dict(decl="<const N: usize>", inst="<3>", tparam=None),
-    "tyconst": dict(decl="<T: Default + Clone + PartialEq + core::fmt::Debug, const N: usize>", inst="<u16, 2>", tparam="u16"),
+    "tyconst": dict(decl="<T: Default + Clone + PartialEq + ::core::fmt::Debug, const N: usize>", inst="<u16, 2>", tparam="u16"),
 }
 
 
